@@ -619,6 +619,10 @@ class AsyncClient(base_client.BaseClient):
         self.logger.info('Engine.IO connection dropped')
         self._transport_ended = True
         will_reconnect = self.reconnection and self.eio.state == 'connected'
+        if will_reconnect and self.namespaces and all(
+                n in self._ending_namespaces for n in self.namespaces):
+            # the server is disconnecting every namespace that is left
+            will_reconnect = False
         error = None
         if self.connected:
             for n in list(self.namespaces):
